@@ -53,7 +53,7 @@ def _gen_key(kind, tier, *parts):
     top = {"mc": "MC_TMClient", "walks": "Sched_TMClient", "cases": "Cases_TMClient"}[kind]
     for m in ("TMClient", "TMActions", top):
         h.update(open(os.path.join(SPEC_DIR, m + ".tla"), "rb").read())
-    cfg = {"std": STD, "levels": LEVELS, "high": HIGH_LEVEL, "sizes": sizes(tier), "diffs": WALK_DIFFS,
+    cfg = {"std": STD, "levels": LEVELS, "high": HIGH_LEVEL, "sizes": sizes(tier), "diffs": WALK_DIFFS, "layouts": LAYOUTS,
            "mc": {k: {a: (sorted(b) if isinstance(b, set) else b) for a, b in v.items()} for k, v in mc_configs(tier).items()}}
     h.update(json.dumps(cfg, sort_keys=True).encode())
     return h.hexdigest()[:16] + "-" + "-".join(str(x) for x in (kind, tier) + parts)
@@ -159,6 +159,10 @@ def _run_mc(tier):
 # ------------------------------------------------------------------------------------------ generation
 
 WALK_DIFFS = ["none", "none", "tp", "lvl", "ubd", "rev", "drift", "upath", "specs", "nopath"]
+# height layouts of the harness (harness/tmclient/world.go: layouts); every second walk configuration uses "dec"
+LAYOUTS = ["slash", "dec"]
+# id prefixes of the case tables
+CASE_PREFIX = {"hdr": "h", "gap": "g", "misb": "m", "rec": "r", "upg": "u", "recgap": "rg", "prune": "pr", "stored": "st"}
 
 
 def gen_walks(tier, seed, workdir):
@@ -167,14 +171,14 @@ def gen_walks(tier, seed, workdir):
     cfgs = []
     for i in range(sz["walk_cfgs"]):
         diff = WALK_DIFFS[(i + seed) % len(WALK_DIFFS)] if i >= 2 else "none"
-        cfgs.append((i, diff, LEVELS[i % 2]))
+        cfgs.append((i, diff, LEVELS[i % 2], LAYOUTS[(i // 2 + i) % 2]))
 
     def one(item):
-        i, diff, (ln, ld) = item
+        i, diff, (ln, ld), lay = item
         outdir = os.path.join(workdir, "walk_%d" % i)
         os.makedirs(outdir, exist_ok=True)
         cfg = os.path.join(d, "Sched_%d.cfg" % i)
-        consts = dict(STD, NH=6 if tier == "quick" else 7, MaxT=6 * STD["TP"], LN=ln, LD=ld, Depth=sz["depth"], OutDir=outdir, SUBDIFF=diff)
+        consts = dict(STD, NH=6 if tier == "quick" else 7, MaxT=6 * STD["TP"], LN=ln, LD=ld, Depth=sz["depth"], OutDir=outdir, SUBDIFF=diff, LAYOUT=lay)
         vk.write_cfg(cfg, "Spec", consts)
         vk.tlc_simulate(d, "Sched_TMClient", cfg, sz["walks"], sz["depth"] + 1, seed * 31 + i, workers=1)
         out = []
@@ -212,7 +216,7 @@ def gen_cases(tier, workdir):
         cfg = os.path.join(d, "Cases_%d%d.cfg" % (ln, ld))
         vk.write_cfg(cfg, "Spec", dict(STD, NH=8, MaxT=200, LN=ln, LD=ld, OutDir=outdir, K=1 if probe else sz["K"]))
         r = vk.tlc_mc(d, "Cases_TMClient", cfg, workers=1, timeout=900)
-        kinds = ("hdr", "gap", "misb", "rec", "upg") if n == 0 else ("hdr",)
+        kinds = ("hdr", "gap", "recgap", "prune", "stored", "misb", "rec", "upg") if n == 0 else ("hdr",)
         for m in re.finditer(r'<<"CASES", "(\w+)", (\d+), (\d+)>>', r["out"]):
             if m.group(1) in kinds:
                 counts["%s-%d%d" % (m.group(1), ln, ld)] = {"cases": int(m.group(2)), "accepted_by_spec": int(m.group(3))}
@@ -220,7 +224,7 @@ def gen_cases(tier, workdir):
         for kind in kinds:
             cases = json.load(open(os.path.join(outdir, "cases_%s.json" % kind)))
             for i, c in enumerate(cases):
-                c["id"] = "%s%s%d%d.%d" % ("p" if probe else "", kind[0], ln, ld, i)
+                c["id"] = "%s%s%d%d.%d" % ("p" if probe else "", CASE_PREFIX[kind], ln, ld, i)
                 c["lvl"] = [ln, ld]
                 if probe:
                     c["kind"] = "probe"
@@ -249,7 +253,7 @@ def drive(binary, scheds, workdir, tag, nshards):
         tp = os.path.join(workdir, "%s_trace_%d.ndjson" % (tag, ix))
         with open(sp, "w") as f:
             for s in shards[ix]:
-                f.write(json.dumps({"id": s["id"], "ubd0": s["ubd0"], "acts": s["acts"]}) + "\n")
+                f.write(json.dumps({"id": s["id"], "ubd0": s["ubd0"], "lay": s.get("lay", "slash"), "acts": s["acts"]}) + "\n")
         rc, out = vk.run_driver(binary, "TestDrive", {"VERIF_SCHED": sp, "VERIF_TRACE": tp})
         if rc != 0:
             raise vk.Infra("driver failed (rc=%d):\n%s" % (rc, out[-3000:]))
@@ -365,12 +369,13 @@ def props_of_action(name):
 
 # vacuity floors: substrings of coverage keys that must have a positive count
 FLOORS = {
-    "C20": ["Update.dup:ok", "Update.freeze-conflict:ok", "Misb.freeze:ok", "Update.prune:ok", "Update.gapfill:ok", "Update.store:ok"],
+    "C20": ["Update.dup:ok", "Update.freeze-conflict:ok", "Misb.freeze:ok", "Update.prune:ok", "Update.gapfill:ok", "Update.store:ok",
+            "prune:Update.prune:ok", "prune:Update.store:ok", "stored:Update.dup:ok", "stored:Update.freeze-conflict:ok"],
     "C22": ["Update.store:ok", "Update.gapfill:ok", "Update.prune:ok", "Recover.frozen:ok", "Upgrade.done:ok", "Update.rev1:ok"],
     "C23": ["walk:Update.freeze-time:ok", "Update.gapfill:ok", "Update.store:ok", "gap:Update.freeze-time:ok", "gap:Update.gapfill:ok",
-            "gap:Update.rejected:err"],
+            "gap:Update.rejected:err", "recgap:Update.freeze-time:ok", "recgap:Update.gapfill:ok"],
     "C24": ["hdr:Update.store:ok", "hdr:Update.rejected:err", "misb:Misb.freeze:ok", "misb:Misb.noconflict:ok", "misb:Misb.rejected:err",
-            "walk:Update.rejected:err"],
+            "walk:Update.rejected:err", "stored:Update.rejected:err"],
     "C25": ["Recover.frozen:ok", "Recover.expired:ok", "Recover.rejected:err", "Recover.rejected:panic", "Upgrade.done:ok",
             "Upgrade.scaled:ok", "Upgrade.custom-ignored:ok", "Upgrade.rejected:err"],
 }
